@@ -145,7 +145,6 @@ Hypothesis REACH : reachable.
 Hypothesis outs_nodup : NoDup (outputs n).
 Hypothesis outs_exact : forall o, In o (outputs n) <-> (o < N /\ is_output (role_at n o) = true).
 Hypothesis plain : forall p l, p < N -> In l (nd_in (node_at n p)) -> l_td l = false.
-Hypothesis single : forall p, p < N -> neuronb n p = true -> NoDup (map (@l_src R) (nd_in (node_at n p))).
 
 Theorem acyclic_feedforward : feedforward n (lp N).
 Proof.
